@@ -87,6 +87,96 @@ func dhOracle(priv, pub []byte) string {
 	return hx.Hex(s)
 }
 
+// pairSweepC02 constructs, for every compatible pair of features, an AEAD Open that has both (three paths).
+func pairSweepC02(g *bufGen) {
+	r := g.R
+	ps := &pairSweep{
+		feats: []string{"xchacha", "inplace", "spare-less", "spare-exact", "spare-more", "dst-prefix", "body-empty", "body-short", "body-mult16", "body-long",
+			"ct-short", "ad-empty", "ad-13", "valid", "tag-flip", "ct-flip", "truncated", "extended", "nil", "session", "fresh"},
+		exclusive: [][]string{{"spare-less", "spare-exact", "spare-more", "inplace"}, {"body-empty", "body-short", "body-mult16", "ct-short"}, {"body-empty", "body-short", "body-long", "ct-short"},
+			{"valid", "tag-flip", "ct-flip", "truncated", "extended", "ct-short"}, {"ad-empty", "ad-13"}},
+		forbidden: map[string][]string{
+			"body-empty": {"ct-flip", "truncated", "spare-less"},
+			"nil":        {"inplace", "dst-prefix", "spare-less", "spare-exact", "spare-more", "ad-13"},
+		},
+	}
+	ps.run(1, func(k string) { g.Stat(k) }, func(fs featSet) bool {
+		x := 0
+		if fs.has("xchacha") {
+			x = 1
+		}
+		L := r.Range(17, 120)
+		switch {
+		case fs.has("body-empty"):
+			L = 0
+		case fs.has("body-short"):
+			L = r.Range(1, 15)
+		case fs.has("body-long") && fs.has("body-mult16"):
+			L = 320 + 16*r.Intn(30)
+		case fs.has("body-long"):
+			L = 321 + r.Intn(500)
+		case fs.has("body-mult16"):
+			L = 16 * r.Range(1, 12)
+		}
+		adLen := r.Range(1, 30)
+		if fs.has("ad-empty") || fs.has("nil") {
+			adLen = 0
+		}
+		if fs.has("ad-13") {
+			adLen = 13
+		}
+		key, nonce, ad, pt := r.Bytes(32), r.Bytes(12+12*x), r.Bytes(adLen), r.Bytes(L)
+		ct := newAEAD(x, key).Seal(nil, nonce, pt, ad)
+		switch {
+		case fs.has("tag-flip"):
+			ct[len(ct)-1-r.Intn(16)] ^= byte(1 << uint(r.Intn(8)))
+		case fs.has("ct-flip"):
+			ct[r.Intn(len(ct)-16)] ^= byte(1 << uint(r.Intn(8)))
+		case fs.has("truncated"):
+			ct = ct[:len(ct)-r.Range(1, min(16, len(ct)-16))]
+		case fs.has("extended"):
+			ct = append(ct, r.Bytes(r.Range(1, 20))...)
+		case fs.has("ct-short"):
+			ct = r.Bytes(r.Intn(16))
+		}
+		n := max(0, len(ct)-16)
+		var dst []byte
+		if fs.has("dst-prefix") {
+			dst = r.Bytes(r.Range(1, 8))
+		}
+		spare, place := 0, "sep"
+		switch {
+		case fs.has("inplace"):
+			place = "inplace"
+		case fs.has("spare-less"):
+			spare = r.Intn(max(n, 1))
+		case fs.has("spare-exact"):
+			spare = n
+		case fs.has("spare-more"):
+			spare = n + r.Range(1, 24)
+		}
+		extra := ""
+		if fs.has("nil") {
+			extra = " nils=1"
+		}
+		var lines []string
+		for _, p := range paths {
+			lines = append(lines, fmt.Sprintf("open x=%d path=%s key=%s nonce=%s ad=%s ct=%s dst=%s cap=%d place=%s%s", x, p, hx.Hex(key), hx.Hex(nonce), hx.Hex(ad), hx.Hex(ct), hx.Hex(dst), spare, place, extra))
+		}
+		if fs.has("session") || fs.has("fresh") {
+			if fs.has("fresh") {
+				lines[1] += " fresh=1"
+			}
+			g.Gen.Emit("%s", sessLine(lines))
+		} else {
+			for _, l := range lines {
+				g.Gen.Emit("%s", l)
+			}
+		}
+		return true
+	})
+}
+
 // lines are collected and emitted in a shuffled order so that the expensive all-bit-flip ops are spread
 // evenly over the model's worker processes
 type bufGen struct {
@@ -99,6 +189,7 @@ func (b *bufGen) Emit(format string, a ...any) { b.lines = append(b.lines, fmt.S
 func gen(gg *hx.Gen) {
 	r := gg.R
 	g := &bufGen{Gen: gg}
+	pairSweepC02(g)
 	defer func() {
 		// sessions: 2..5 consecutive calls of one family sharing key/nonce/ad/ct/dst buffers (contents rewritten
 		// in place), some repeated with the same contents, some on fresh arrays; the heavy all-bit-flip ops stay single
@@ -386,10 +477,23 @@ func execOne(o hx.Op, ar *arena) string {
 		defer cp.VerifSetAVX2(origAVX2)
 		key, nonce, ad, ct := o.Hex("key"), o.Hex("nonce"), o.Hex("ad"), o.Hex("ct")
 		op := aeadOpener(x, path)
+		nils := o.Str("nils") == "1" // empty slices are passed as nil
 		call := func(key, nonce, ct, ad []byte) (ret []byte, err error, sp []byte, mut string) {
 			ar.begin()
 			d := ar.Out("dst", dst0, spare, fill)
-			ret, err = op(d, ar.In("key", key), ar.In("nonce", nonce), ar.In("ct", ct), ar.In("ad", ad))
+			a, c := ar.In("ad", ad), ar.In("ct", ct)
+			if nils {
+				if len(d) == 0 && cap(d) == 0 {
+					d = nil
+				}
+				if len(a) == 0 {
+					a = nil
+				}
+				if len(c) == 0 {
+					c = nil
+				}
+			}
+			ret, err = op(d, ar.In("key", key), ar.In("nonce", nonce), c, a)
 			return ret, err, spareOf(d), ar.mutated()
 		}
 		if o.Cmd == "open" && o.Str("place") == "inplace" {
